@@ -308,6 +308,12 @@ def make_sampler(cfg):
             # graphs under increasing keys with gaps
             import networkx as nx
             lib = {name: nx.relabel_nodes(t, {k: 2 * k + 3 for k in t.nodes}, copy=True) for name, t in lib.items()}
+        if cfg['seed'] % 5 == 1 and len(lib) >= 2:
+            # the keys of a caller's library need not repeat the 'fragname' attribute its fragment graphs carry (fragments
+            # read from several strings, renamed entries): the same graphs under each other's names.  Masses, reactivities
+            # and the start fragment go by KEY.
+            names = sorted(lib)
+            lib = {names[(i + 1) % len(names)]: lib[names[i]] for i in range(len(names))}
         return MoleculeSampler(lib, poly, **kw)
     return MoleculeSampler.from_fragment_string(cfg['frag_string'], **kw)
 
